@@ -75,4 +75,9 @@ TEXTS["C02"] = {
     "note": "Real consensus/crdt, dsstate, go-ds-crdt, ipfs-lite and gossipsub on loopback hosts. Message-level delivery order inside gossipsub/bitswap is left to the scheduler.",
     "technique": "model-based stateful property testing with fault injection and partition schedules (rapid state machine)",
 }
+TEXTS["C01"] = {
+    "level": "Model-based stateful testing of 1-3 real Raft peers with snapshotting and log truncation forced into short histories (threshold 2-5, trailing logs 0-2): pins of every type and option submitted at leaders and followers, unpins, restarts, stop/start of a follower while the others commit and snapshot (catch-up by snapshot install over non-empty state), offline reads; the model is the acknowledged sequence; the time-free invariant 'every live member's pinset is a prefix state' is evaluated after every step, plus leader visibility, caught-up equality with a generous bound, OfflineState equality and tracker hand-off by content. Exploration level.",
+    "note": "Real consensus/raft, dsstate, go-libp2p-raft FSM and hashicorp raft from /repo and the module cache, on loopback hosts and temp dirs. Schedules inside raft are explored by repetition only.",
+    "technique": "model-based stateful property testing with restart/stop faults (rapid state machine), oracle = prefix-of-committed-sequence model",
+}
 PENDING = {}
